@@ -4,10 +4,14 @@
 From DS Require Import Base Sort Decimal MercuryAgg Config MercuryReport MercuryWire MercuryObserve CasesMercReport.
 Open Scope Z_scope.
 
+Inductive mround_out := MRNone | MRReport (bm ts : Z) | MRDecline | MRErr | MRPanic.
 Inductive mobv_case :=
 | MO234 (ver : Z) (base : dec) (ds_fail : bool) (ds : ds234) (out : res bytes) (now : Z) (asked_ok : bool)
 | MO1 (prev_nil : bool) (ds_fail : bool) (ds : ds1) (out : res bytes) (now : Z) (asked_ok : bool)
-| MFee (price : Z) (base : dec) (out : res Z).
+| MFee (price : Z) (base : dec) (out : res Z)
+(* a nominal round on the implementation: the benchmark values the correct nodes' data sources returned, the number of
+   faulty senders (at most f), what the real Report returned, the harness's clock (seconds) before and after *)
+| MRound (ver f : Z) (correct : list (option Z)) (n_faulty : Z) (out : mround_out) (t0 t1 : Z).
 
 Definition mobv_agrees (c : mobv_case) : bool :=
   match c with
@@ -31,6 +35,7 @@ Definition mobv_agrees (c : mobv_case) : bool :=
       | Panic _, Panic _ => true
       | _, _ => false
       end
+  | MRound _ _ _ _ _ _ _ => true
   end.
 
 Definition in192 (v : Z) : bool := (- 2 ^ 191 <=? v) && (v <=? max_int192).
@@ -100,6 +105,15 @@ Definition mobv_spec_ok (c : mobv_case) : bool :=
       | Ok v => if (price =? 0) || (dzc base =? 0) then v =? 0 else true
       | Err _ => false
       end
+  | MRound ver f correct nf out t0 t1 =>
+      (* every correct node's observation is counted: the plugin reports, the benchmark lies between two correct
+         data-source values and the timestamp between the clock readings *)
+      let vals := flat_map (fun o => match o with Some v => [v] | None => [] end) correct in
+      match out, vals with
+      | MRReport bm ts, v0 :: _ =>
+          (fold_left Z.min vals v0 <=? bm) && (bm <=? fold_left Z.max vals v0) && (t0 <=? ts) && (ts <=? t1)
+      | _, _ => false
+      end
   end.
 
 Definition mobv_branch (c : mobv_case) : nat :=
@@ -110,7 +124,8 @@ Definition mobv_branch (c : mobv_case) : nat :=
   | MO234 _ _ _ _ (Panic _) _ _ | MO1 _ _ _ (Panic _) _ _ => 3
   | MFee _ _ (Panic _) => 5
   | MFee _ _ _ => 4
+  | MRound _ _ _ _ _ _ _ => 6
   end%nat.
 Definition mobv_eval (cs : list mobv_case) : list nat * list nat * list nat :=
   (index_where (fun c => negb (mobv_agrees c)) cs, index_where (fun c => negb (mobv_spec_ok c)) cs,
-   map (fun b => length (List.filter (Nat.eqb b) (map mobv_branch cs))) (seq 0 6)).
+   map (fun b => length (List.filter (Nat.eqb b) (map mobv_branch cs))) (seq 0 7)).
